@@ -127,17 +127,25 @@ func compareSubversion(va, vb string) int {
 	var a, b string
 	var anum, bnum bool
 	var res int
+	first := true
 	for res == 0 {
 		a, va, anum = nextFrag(va)
 		b, vb, bnum = nextFrag(vb)
 		if a == "" && b == "" {
 			break
 		}
-		if anum && bnum {
+		switch {
+		case anum && bnum:
 			res = cmpNumeric(a, b)
-		} else {
+		case !first && ((a == "" && bnum) || (anum && b == "")):
+			// as in dpkg, once one side is exhausted it compares as
+			// the number zero against a numeric fragment of the other
+			// ("1." == "1.0", "1.0~" < "1.")
+			res = cmpNumeric(a, b)
+		default:
 			res = cmpString(a, b)
 		}
+		first = false
 	}
 	return res
 }
